@@ -17,10 +17,15 @@ from concurrent.futures import ThreadPoolExecutor
 VERIF = os.path.dirname(os.path.dirname(os.path.abspath(__file__)))
 SPEC = os.path.join(VERIF, "spec")
 HARNESS = os.path.join(VERIF, "harness")
-WORK = os.path.join(VERIF, "work")
-EVID = os.path.join(VERIF, "evidence")
-REPLAYS = os.path.join(VERIF, "replays")
 REPO = "/repo"
+# Development aid only (never used by a registered command): VERIF_ALT_REPO=<copy of /repo with a trial change> builds the harness
+# against that copy (cargo path override) into its own target directory and keeps work files, evidence and replays of the trial
+# apart, so that a seeded change can be tried while checks of the real tree are running.
+ALT_REPO = os.environ.get("VERIF_ALT_REPO")
+_ALT = ("alt-" + hashlib.md5(ALT_REPO.encode()).hexdigest()[:8]) if ALT_REPO else None
+WORK = os.path.join(VERIF, "work", _ALT) if _ALT else os.path.join(VERIF, "work")
+EVID = os.path.join(WORK, "evidence") if _ALT else os.path.join(VERIF, "evidence")
+REPLAYS = os.path.join(WORK, "replays") if _ALT else os.path.join(VERIF, "replays")
 TLA_CP = "/opt/veriftools/tla/tla2tools.jar:/opt/veriftools/tla/CommunityModules-deps.jar"
 
 
@@ -63,6 +68,8 @@ def build_harness(profile="release", crate=HARNESS):
     if not os.path.exists(lock):
         shutil.copy(os.path.join(REPO, "Cargo.lock"), lock)
     cmd = ["cargo", "build", "--offline", "--profile", profile]
+    if ALT_REPO:
+        cmd += ["--config", 'paths=["%s"]' % ALT_REPO, "--target-dir", os.path.join(WORK, "target-" + os.path.basename(crate))]
     env = dict(os.environ, CARGO_NET_OFFLINE="true")
     t0 = time.time()
     p = subprocess.run(cmd, cwd=crate, env=env, capture_output=True, text=True)
@@ -79,6 +86,8 @@ def _unused():
 
 
 def binary(profile="release", crate=HARNESS, name="drive"):
+    if ALT_REPO:
+        return os.path.join(WORK, "target-" + os.path.basename(crate), profile, name)
     return os.path.join(crate, "target", profile, name)
 
 
